@@ -45,7 +45,7 @@ theorem adv_waiterEnd (hw : s.waiter = true) (hrt : s.rt = .stoppingHung ∨ s.r
 /-! ### `run_tasks` -/
 
 theorem adv_rtStopRoots (hw : s.rt = .waiting) (ha : anyRootEnded s = true) : Advance cfg s := by
-  apply Advance.mk .rtStopRoots { s with rt := .stoppingRoots, creq := cancelRoots s, t0 := some s.now } rfl
+  apply Advance.mk .rtStopRoots { s with rt := .stoppingRoots, creq := cancelRootsV cfg s, t0 := some s.now } rfl
     (by intro n h; cases h)
   · simp [step, hw, ha]
   · simp only [mu, hw, rtRank, hungTime]; omega
